@@ -1743,7 +1743,7 @@ def finalize(ctx, acc):
     for t in "ABC":
         if not acc.extra.get("programs_tier_" + t):
             acc.harness_error("tier %s empty" % t)
-    if len(acc.outcomes) < n // 4:
+    if len(acc.outcomes) < n // 10:      # many programs are deliberately equivalent (same constant, other encoding)
         acc.harness_error("only %d distinct reference behaviours for %d programs: space degenerated" % (len(acc.outcomes), n))
     if not acc.extra.get("disagreements_checked"):
         acc.harness_error("no tuple was compared (everything rejected?)")
